@@ -16,6 +16,11 @@ ARGK = {
 }
 
 
+# clauses of TraceContinuum.tla beyond the statements of C13 / C14 (which name annotators, units, categories and bounds):
+# what happens to best_window_size under container operations is modelled, a departure is a NOTE
+BEYOND = {"ObsBws"}
+
+
 def bws_of(c):
     w = c.best_window_size
     return INF_BWS if (isinstance(w, float) and math.isinf(w)) else int(w)
